@@ -324,3 +324,88 @@ def c14_4(R):
                where=sp.blocks[exp_t].term.where(), instance="probe-expired=>leave-rto-mode")
     else:
         R.ok("probe-expired=>leave-rto-mode", SPLIT, "rto_retransmissions = 0 and retransmit.turn_off on every path from the Expired arm")
+
+
+@rule("C14.5", ["C14"], ["E1", "E2", "E4"], "a payload size counts as proven deliverable only when a segment of that size was acknowledged",
+      "SegmentSizes::on_payload_delivered is called with exactly two sources: OnAckResult.max_acked_payload_size of the ACK just processed, and the length of a payload received from the peer. In "
+      "Segments::remove_up_to_ack the accumulator behind max_acked_payload_size is raised (x = x.max(segment.payload_size)) only for a segment drained by the cumulative ACK, or, in the selective-ACK "
+      "closure, under bit = true for that segment - never for a segment that is merely inside the SACK range.")
+def c14_5(R):
+    F = R.facts
+    n = 0
+    for b, t in census_calls(R, F, (SS + "::on_payload_delivered",)):
+        n += 1
+        src = value_sources(b, t.args[1])
+        tt = trace(b, t.args[1])
+        from_ack = src == {("field", "OnAckResult.max_acked_payload_size")}
+        from_peer = tt.kind == "call" and (tt.root[1].resolved or "").endswith("::len") and (lambda x: x.kind == "call" and call_matches(x.root[1], ("message::UtpMessage::payload",)))(trace(b, tt.root[1].args[0]))
+        if from_ack or from_peer:
+            R.ok("proven-size-sources", owner_fn(b), "acked segment size" if from_ack else "size of a payload received from the peer")
+        else:
+            R.fail([owner_fn(b), "on_payload_delivered", "source=" + sources_str(b, t.args[1])], "a payload size is recorded as deliverable from something other than an acknowledged segment or a received payload", where=t.where(), instance="proven-size-sources")
+    R.floor("on_payload_delivered call sites", n, 2)
+    ru = R.body("stream_tx_segments::Segments::remove_up_to_ack")
+    acc = None
+    for s in ru.stmts():
+        if s.rv.kind == "agg" and s.rv.j.get("adt") == "stream_tx_segments::OnAckResult":
+            i = s.rv.j["fields"].index("max_acked_payload_size")
+            acc = copy_root(ru, s.rv.ops[i])
+    R.require(acc is not None, "the local returned as OnAckResult.max_acked_payload_size")
+    from utpsa.prov import upvar_origin
+    raises = 0
+    for b in [ru] + F.closures_of(ru.name):
+        for t in b.calls():
+            if not call_matches(t, ("Ord::max",)) or len(t.args) != 2:
+                continue
+            # x = x.max(seg.payload_size) stored back into the accumulator
+            a0 = trace(b, t.args[0])
+            is_acc = (b is ru and a0.kind in ("multi", "undef") and a0.root[1] == acc) or (a0.kind == "upvar" and (lambda o: o is not None and o[0] == "local" and o[1] == acc and o[2].name == ru.name)(upvar_origin(b, a0.root[1])))
+            if not is_acc:
+                continue
+            raises += 1
+            sz = trace(b, t.args[1])
+            if sz.last_field != "Segment.payload_size":
+                R.fail([ru.name, "max_acked_payload_size", "raised-by=" + sz.describe()[:50]], "the proven payload size is raised by something other than a segment's payload_size", where=t.where(), instance="proven-size=>acked-segment")
+                continue
+            if b is ru:
+                seg = trace(ru, t.args[1])
+                drained = seg.kind == "call" and call_matches(seg.root[1], ("Iterator::next",)) or any(isinstance(st, Term) and call_matches(st, ("Iterator::next",)) for st in seg.steps)
+                if drained:
+                    R.ok("proven-size=>acked-segment", "cumulative ACK", "raised for a drained (acknowledged) segment")
+                else:
+                    R.fail([ru.name, "max_acked_payload_size", "raised-outside-drain"], "the proven payload size is raised for a segment that is not being removed by the cumulative ACK", where=t.where(), instance="proven-size=>acked-segment")
+            else:
+                bit = any(c.kind in ("var", "multi", "field") and truth and c.trace.kind == "param" and c.trace.root[1] == 3 and not c.trace.fields for c, truth, d, *_ in controlling(b, t.bb))
+                if bit:
+                    R.ok("proven-size=>acked-segment", "selective ACK", "raised only under bit = true")
+                else:
+                    R.fail([ru.name, "max_acked_payload_size", "raised-for-unsacked-segment"], "the proven payload size is raised for a segment inside the SACK range whose bit is not set: an unacknowledged (possibly black-holed) probe size becomes the ordinary segment size", where=t.where(), instance="proven-size=>acked-segment")
+    R.floor("sites raising max_acked_payload_size", raises, 2)
+
+
+@rule("C14.6", ["C14", "C02"], ["E2"], "an expired probe is taken back on every poll that has data in the ring",
+      "In split_tx_queue_into_segments every Ok exit other than the ones taken under an empty ring (tx_len == 0) or after the peer closed (is_remote_fin_or_later) has passed Segments::pop_expired_mtu_probe: it is the only place where a probe whose "
+      "retransmissions ran out is removed, recorded as failed and re-cut; a fast path that returns before it leaves a black-holed probe in the queue until the connection dies.")
+def c14_6(R):
+    from .c02 import tx_len_zero_edges
+    sp = R.body(SPLIT)
+    pops = {t.bb for t in sp.calls() if call_matches(t, ("stream_tx_segments::Segments::pop_expired_mtu_probe",))}
+    R.floor("pop_expired_mtu_probe in split_tx_queue_into_segments", len(pops), 1)
+    zero = tx_len_zero_edges(sp)
+    R.require(zero, "the tx_len == 0 test")
+    # the other audited early exit: the peer has closed, nothing more is segmented
+    closed = set()
+    for blk in sp.blocks:
+        if blk.cleanup or blk.term.kind != "switch" or blk.idx not in sp.live_blocks():
+            continue
+        c, neg = switch_cond(sp, blk.term)
+        if c.kind == "call" and call_matches(c.call, ("VirtualSocketState::is_remote_fin_or_later",)):
+            be = bool_edges(sp, blk.idx)
+            closed.add((blk.idx, be[0] if neg else be[1]))
+    reach = sp.reachable(0, removed_edges=set(zero) | closed, removed_blocks=pops)
+    bad = [it for it, cls in ret_assignments(sp) if cls.startswith("Ok") and it.bb in reach]
+    if not bad:
+        R.ok("poll-with-data=>expired-probe-handled", sp.name, "every Ok exit with a non-empty ring passes pop_expired_mtu_probe")
+    else:
+        R.fail([sp.name, "Ok-exit-before(pop_expired_mtu_probe)"], "split_tx_queue_into_segments can return with data in the ring before looking for an expired MTU probe: a probe dropped by the path is never taken back",
+               where=bad[0].where(), witness=path_lines(sp, shortest_path(sp, 0, [bad[0].bb], removed_edges=set(zero) | closed, removed_blocks=pops)), instance="poll-with-data=>expired-probe-handled")
